@@ -47,10 +47,40 @@ pub struct Run {
 /// The text a built-in-lexer parser sees for a token sequence; `splice` puts an
 /// unmatchable byte right after token number `splice` (0 = before the first).
 pub fn text_of(spec: &Spec, toks: &[usize], splice: Option<usize>) -> (String, usize) {
+    text_of_junk(spec, toks, splice, "\u{1}")
+}
+
+/// unmatchable texts to splice in: a control byte; a multi-byte character whose lead byte also
+/// starts Unicode white space; a proper prefix of a multi-character terminal followed by a byte
+/// that kills the match (only for specs whose terminals are all literals, where this can be decided)
+pub fn junk_variants(spec: &Spec) -> Vec<String> {
+    let mut v = vec!["\u{1}".to_string()];
+    if spec.regex.is_empty() {
+        v.push("\u{20ac}".to_string());
+        'outer: for t in &spec.terminals {
+            if t.len() >= 2 && t.is_ascii() {
+                let p = &t[..t.len() - 1];
+                for other in &spec.terminals {
+                    if p.starts_with(other.as_str()) {
+                        continue 'outer;
+                    }
+                }
+                v.push(format!("{p}\u{1}"));
+                break;
+            }
+        }
+    }
+    v
+}
+
+pub fn text_of_junk(spec: &Spec, toks: &[usize], splice: Option<usize>, junk: &str) -> (String, usize) {
     let mut s = String::new();
     let mut at = 0usize;
     if splice == Some(0) {
-        s.push('\u{1}');
+        s.push_str(junk);
+        if junk.len() > 1 {
+            s.push(' ');
+        }
     }
     for (i, t) in toks.iter().enumerate() {
         if i > 0 {
@@ -58,8 +88,12 @@ pub fn text_of(spec: &Spec, toks: &[usize], splice: Option<usize>) -> (String, u
         }
         s.push_str(spec.sample(*t));
         if splice == Some(i + 1) {
+            if junk.len() > 1 {
+                // keep the junk apart from the token before it
+                s.push(' ');
+            }
             at = s.len();
-            s.push('\u{1}');
+            s.push_str(junk);
         }
     }
     (s, at)
@@ -301,11 +335,17 @@ pub fn check_c17(w: &World, s: &dyn Sut, toks: &[usize], shape: u8, _rng: &mut R
     // (d) built-in lexer: an unmatchable byte at every token boundary
     if var.builtin && !spec.empty_match {
         let base_consumes_all = matches!(base.out, Ok(Outcome::Ok(_)) | Ok(Outcome::Eof { .. }));
-        for b in 0..=toks.len() {
-            let (_, at) = text_of(spec, toks, Some(b));
-            let r = run_case(w, s, toks, shape, Plan::default(), Some(b));
+        let junks = junk_variants(spec);
+        for (b, junk) in (0..=toks.len()).flat_map(|b| junks.iter().map(move |j| (b, j))) {
+            let (text, at) = text_of_junk(spec, toks, Some(b), junk);
+            let r = {
+                let ctx = Ctx::new(Plan::default());
+                let res = catch_unwind(AssertUnwindSafe(|| s.parse_str(&ctx, &text)));
+                let log = ctx.log.borrow().clone();
+                Run { log, out: res.map_err(|_| "panic".to_string()), pulls: ctx.pulls() }
+            };
             st.faulted_parses += 1;
-            st.digest ^= run_digest(s, toks, shape, &Plan::default(), Some(b), &r);
+            st.digest ^= run_digest(s, toks, shape, &Plan::default(), Some(b), &r).rotate_left(junk.len() as u32);
             st.invalid_token_faults += 1;
             // if the fault-free parse already failed at a token that ends before the
             // splice, the lexer is never asked for the spliced position
@@ -318,7 +358,8 @@ pub fn check_c17(w: &World, s: &dyn Sut, toks: &[usize], shape: u8, _rng: &mut R
             };
             let want_invalid = base_consumes_all || !earlier_error;
             let where_ = if b == 0 { "before-first" } else if b == toks.len() { "after-last" } else { "middle" };
-            st.shapes.insert(format!("{}|{be}|str|invalid-token|{where_}|{base_kind}", var.module));
+            let jkind = if junk == "\u{1}" { "control-byte" } else if junk.is_ascii() || junk.ends_with('\u{1}') { "terminal-prefix" } else { "multibyte" };
+            st.shapes.insert(format!("{}|{be}|str|invalid-token|{where_}|{base_kind}|{jkind}", var.module));
             let good = match &r.out {
                 Ok(Outcome::InvalidToken(l)) if want_invalid => *l as usize == at && r.log.len() <= base.log.len() && r.log[..] == base.log[..r.log.len()],
                 Ok(o) if !want_invalid => Some(o) == base.out.as_ref().ok() && r.log == base.log,
@@ -331,7 +372,7 @@ pub fn check_c17(w: &World, s: &dyn Sut, toks: &[usize], shape: u8, _rng: &mut R
                 bad.push(Bad {
                     property: "C17",
                     key: format!("prefix-then-fault-then-error|backend={be}|item=str|fault=invalid-token|where={where_}|problem={}", match &r.out { Err(_) => "panic", Ok(Outcome::InvalidToken(_)) => "history-or-location-differs", _ => "wrong-result" }),
-                    detail: format!("unmatchable byte at offset {at} (after token {b}): got {:?} with {} events; fault-free parse gives {:?} with {} events", r.out, r.log.len(), base.out, base.log.len()),
+                    detail: format!("unmatchable text {:?} at offset {at} (after token {b}): got {:?} with {} events; fault-free parse gives {:?} with {} events", junk, r.out, r.log.len(), base.out, base.log.len()),
                     plan: Plan::default(),
                     splice: Some(b),
                     shape,
